@@ -195,4 +195,3 @@ func halfBatchTrace(en *Env, index string, stats map[string]int) {
 	obs := c.ExploreMerge(false, stats)
 	c.Flush(obs)
 }
-
